@@ -98,7 +98,8 @@ pub fn eval_node<F: FnMut(&GraphColoredVertices, &str)>(
                 let var_curr = reverse_renaming.get(var_canon).unwrap();
                 result = substitute_hctl_var(graph, &result, var_res, var_curr);
             }
-            return result;
+            // the cached set (a wild-card set in particular) might come from a less restricted universe
+            return result.intersect(graph.unit_colored_vertices());
         } else {
             // if the cache does not contain result for this subformula, set insert flag
             save_to_cache = true;
